@@ -28,5 +28,5 @@ Then write a demonstration: a Rust integration test file (placed at crates/rawdb
 Deliverables, all in {out}/ :
   - patch.diff : `git diff -- crates/rawdb/src crates/vecdb/src` of your change only (source change, not the demo test)
   - seeded_demo.rs : the demonstration test file
-  - meta.json : {{"property": "{p['id']}", "crate": "rawdb|vecdb", "summary": "...one paragraph: what was changed and why it breaks the property...", "needs_to_manifest": "...the specific sequence/input/interleaving needed...", "demo_cmd": "exact cargo command that runs the demo test", "suite_result": "N passed, 0 failed"}}
+  - meta.json : {{"property": "{p['id']}", "crate": "rawdb|vecdb (the crate whose tests/ directory holds seeded_demo.rs)", "summary": "...one paragraph: what was changed and why it breaks the property...", "needs_to_manifest": "...the specific sequence/input/interleaving needed...", "demo_cmd": "exact cargo command that runs the demo test", "suite_result": "N passed, 0 failed"}}
 Leave the worktree with your change applied and the demo test present. Keep the change to a handful of lines. In your final message report the summary, what it needs to manifest, and confirm the three verifications (suite passes with change; demo fails with change; demo passes without).""")
